@@ -6,7 +6,9 @@ m = [('Bits.__add__', 'C01'), ('BitStore operations honour', 'C08'), ('negative 
      ('endian integer property', 'C15'), ('lsb0 slicing', 'C12'), ('hash of a long', 'C13'), ('cached string parses', 'C09'), ('Dtype caches', 'C09'),
      ('tobitarray', 'C04'), ('bits= initialiser', 'C04'), ('fromstring()', 'C04'), ('mxint rounds', 'C11'), ('array.array input', 'C18'),
      ('item width in bits', 'C14'), ('Array.insert', 'C14'), ('buffer-backed pattern', 'C07'), ('Array.count', 'C14'), ('set(value, range)', 'C03'),
-     ('byteswap(', 'C03'), ('empty slice inserts', 'C12'), ('disagrees with a hex', 'C15')]
+     ('byteswap(', 'C03'), ('empty slice inserts', 'C12'), ('disagrees with a hex', 'C15'),
+     ('negative lengths when creating a Dtype', 'C06'), ('ConstBitStream.copy()', 'C06'), ('ignore the lsb0 option', 'C12'),
+     ('lsb0 findall finds every match', 'C07'), ('byte aligned find and rfind in lsb0', 'C12'), ('little-endian bitarray source', 'C08')]
 log = subprocess.run(['git', '-C', '/repo', 'log', '--format=%h %s'], capture_output=True, text=True).stdout.splitlines()
 out = []
 for line in log:
